@@ -23,6 +23,7 @@ type verdict struct {
 	premiseB  bool   // every request and reply is within the limits (narrowest reading)
 	anomaly   bool   // something was refused / failed
 	anomalyIs string // description of the anomaly
+	anomalyOb string // observable used in the finding key when the control run confirms ("" = refused-within-limit)
 	entered   bool
 	unmatched int
 	overSent  bool
@@ -103,6 +104,7 @@ func evaluate(c *Case, out *outcome, s liveSnap) verdict {
 
 	// (a) delivered => size <= L_recv
 	deliveredOver := false
+	notSent := "" // the handler saw a message the client did not send
 	switch {
 	case isUp:
 		for i, d := range s.Delivered {
@@ -113,10 +115,21 @@ func evaluate(c *Case, out *outcome, s liveSnap) verdict {
 				break
 			}
 		}
+		// a unary HttpBody request is one message: the handler must see the
+		// body the client sent or nothing
+		if c.Shape == "uploadu" && !deliveredOver && len(c.Reqs) > 0 {
+			for _, d := range s.Delivered {
+				if got := uploadData(d); !bytes.Equal(got, c.Reqs[0]) {
+					notSent = fmt.Sprintf("handler received an HttpBody of %d bytes, the client sent %d bytes (receive limit %d)", len(got), len(c.Reqs[0]), Lr)
+				}
+			}
+		}
 	case len(c.Reqs) > 0 || hostile:
 		msgs := make([]proto.Message, len(c.Reqs))
-		for i, enc := range c.Reqs {
-			msgs[i], _ = decodeReq(c.Codec, enc)
+		if len(s.Delivered) > 0 {
+			for i, enc := range c.Reqs {
+				msgs[i], _ = decodeMsg(c, enc)
+			}
 		}
 		for di, d := range s.Delivered {
 			matched, within, msize := false, false, 0
@@ -131,6 +144,9 @@ func evaluate(c *Case, out *outcome, s liveSnap) verdict {
 			}
 			if !matched {
 				v.unmatched++
+				if notSent == "" {
+					notSent = fmt.Sprintf("handler received message %d which is none of the %d messages the client sent%s", di, len(msgs), cutOf(c, d, overIdx, Lr))
+				}
 				continue
 			}
 			if !within {
@@ -147,6 +163,15 @@ func evaluate(c *Case, out *outcome, s liveSnap) verdict {
 				fmt.Sprintf("handler received %d messages although only %d valid ones were sent: a message was delivered out of a frame declaring %d bytes (limit %d) followed by %d bytes",
 					len(s.Delivered), len(c.Reqs), c.Declared, Lr, len(c.Tail))})
 		}
+	}
+
+	// a message cut down to the limit is not what the client sent: with an
+	// over-limit message in the request this is the limit handling itself
+	if notSent != "" && (overIdx >= 0 || hostile) && !deliveredOver {
+		deliveredOver = true
+		v.viols = append(v.viols, viol{c.key("delivered-truncated"),
+			fmt.Sprintf("%s; request sizes %v%s, receive limit %d; client status: %s %s", notSent, sizes, afterInflation(c), Lr, out.Status, out.Detail)})
+		notSent = ""
 	}
 
 	// (a) ... such a request fails with an error instead
@@ -199,6 +224,9 @@ func evaluate(c *Case, out *outcome, s liveSnap) verdict {
 	switch {
 	case out.Panic != nil:
 		v.anomaly, v.anomalyIs = true, "panic: "+out.Panic.Value
+	case notSent != "":
+		// within-limit request: decided by the control run like a refusal
+		v.anomaly, v.anomalyIs, v.anomalyOb = true, notSent, "delivered-truncated"
 	case out.Status == "error":
 		v.anomaly, v.anomalyIs = true, "client status: "+out.Detail
 	case s.RecvErrAt >= 0:
@@ -226,6 +254,23 @@ func evaluate(c *Case, out *outcome, s liveSnap) verdict {
 		}
 	}
 	return v
+}
+
+// cutOf describes a delivered message that equals the reference decoding of
+// a prefix of the over-limit message.
+func cutOf(c *Case, d proto.Message, overIdx, Lr int) string {
+	if overIdx < 0 || c.Codec != "proto" {
+		return ""
+	}
+	enc := c.Reqs[overIdx]
+	for _, n := range []int{Lr, Lr - 1, Lr + 1} {
+		if n >= 0 && n < len(enc) {
+			if m, err := decodeMsg(c, enc[:n]); err == nil && proto.Equal(m, d) {
+				return fmt.Sprintf(": it is the decoding of the first %d bytes of message %d (%d bytes)", n, overIdx, len(enc))
+			}
+		}
+	}
+	return ""
 }
 
 // gzipMargin: the grpc-go client compresses by itself; its frame may differ
@@ -294,6 +339,9 @@ func keyClass(class string) string {
 		return "reply<Ls"
 	case "reply=Ls+1", "reply=10Ls":
 		return "reply>Ls"
+	}
+	if i := strings.LastIndex(class, "/total="); i >= 0 {
+		return class[:i] // prefix-valid families: family/cut@X
 	}
 	return class
 }
@@ -383,7 +431,11 @@ func (g *gen) run(e *env, c *Case) {
 			cv := evaluate(&cc, cout, cs)
 			r.Count("control_runs", 1)
 			if !cv.anomaly && cv.entered && cout.Status != "error" {
-				r.Violate(c.key("refused-within-limit"),
+				ob := "refused-within-limit"
+				if v.anomalyOb != "" {
+					ob = v.anomalyOb
+				}
+				r.Violate(c.key(ob),
 					fmt.Sprintf("request sizes %v (receive limit %d), reply sizes %v (send limit %d): %s; the identical request on a mux with unlimited sizes succeeds (%s)",
 						sizesOf(c.Reqs), c.lrecv(), replySizes(c), c.lsend(), v.anomalyIs, cout.Detail), c)
 			} else {
@@ -690,6 +742,66 @@ func (g *gen) prefixProbes(e *env, l laneSpec, rng *rand.Rand) {
 	}
 }
 
+// truncLanes are the lanes of the prefix-valid payload families (protobuf
+// only: a cut JSON object never parses).
+func truncLanes() []laneSpec {
+	var ls []laneSpec
+	for _, gz := range []bool{true, false} {
+		for _, sh := range []string{"unary", "cs"} {
+			ls = append(ls, laneSpec{"http", "proto", gz, sh, "inproc", 0, false})
+			for _, p := range []string{"grpc", "grpc-web", "grpc-web-text"} {
+				ls = append(ls, laneSpec{p, "proto", gz, sh, "inproc", 0, false})
+			}
+		}
+	}
+	return ls
+}
+
+// truncProbes sends over-limit vf.Req messages whose prefixes at and around
+// the limit are valid encodings of other messages (see prefixValid).
+func (g *gen) truncProbes(e *env, l laneSpec, rng *rand.Rand, with10L bool) {
+	L := e.lrecvEff()
+	p := padder{rng, l.gz}
+	type al struct {
+		name string
+		cut  int
+	}
+	aligns := []al{{"L", L}}
+	if l.gz {
+		aligns = append(aligns, al{"L-1", L - 1}, al{"L+1", L + 1})
+	}
+	for _, fam := range []string{"trail", "rep-int32", "rep-string"} {
+		for _, a := range aligns {
+			totals := []int{a.cut + 1, 10 * L}
+			if fam == "trail" || !with10L {
+				totals = totals[:1]
+			}
+			for ti, total := range totals {
+				enc, ok := prefixValid(fam, a.cut, total, p)
+				if !ok {
+					g.r.Count("size_not_realisable_in_codec", 1)
+					continue
+				}
+				tn := "just-over"
+				if ti == 1 {
+					tn = "10L"
+				}
+				c := g.newCase(e, l, "req", fmt.Sprintf("%s/cut@%s/total=%s", fam, a.name, tn))
+				c.Msg = "req"
+				c.Reqs, c.Probe, c.NRead = [][]byte{enc}, 0, 1
+				if l.shape == "cs" {
+					// after one small in-limit message when one fits
+					f := []byte{0x0a, 0x02, 'f', '0'}
+					if len(f) <= L && !(l.gz && l.proto != "http" && len(wire.Gzip(f)) > L) {
+						c.Reqs, c.Probe, c.NRead = [][]byte{f, enc}, 1, 2
+					}
+				}
+				g.run(e, c)
+			}
+		}
+	}
+}
+
 func (g *gen) matrix(e *env, seed int, lanes []laneSpec, withPrefix bool) {
 	L := e.lrecvEff()
 	sizes := map[string]int{"L-1": L - 1, "L": L, "L+1": L + 1, "10L": 10 * L}
@@ -735,6 +847,9 @@ func (g *gen) defaultConfig(withSockets bool) {
 		if l.transport == "inproc" {
 			g.prefixProbes(e, l, rng)
 		}
+		if l.gz && l.codec == "proto" && l.shape == "unary" {
+			g.truncProbes(e, l, rng, false)
+		}
 	}
 }
 
@@ -760,6 +875,9 @@ func RunC08(r *mon.Run) {
 				return
 			}
 			for seed := 0; seed < seeds; seed++ {
+				for _, l := range truncLanes() {
+					g.truncProbes(e, l, g.r.Rand(fmt.Sprintf("trunc/%d/%d/%d/%s/%v/%s", seed, Lr, Ls, l.proto, l.gz, l.shape)), true)
+				}
 				g.matrix(e, seed, inprocLanes(), true)
 				g.matrix(e, seed, wsLanes(), false)
 				if r.Thorough() {
